@@ -204,7 +204,7 @@ func checkFieldAssignment(
 
 	typeName := named.Obj().Name()
 	pkg := named.Obj().Pkg()
-	if pkg == nil {
+	if pkg == nil || !util.IsPackageLevelType(named) {
 		return nil
 	}
 
@@ -258,7 +258,7 @@ func checkIndexAssignment(
 
 	typeName := named.Obj().Name()
 	pkg := named.Obj().Pkg()
-	if pkg == nil {
+	if pkg == nil || !util.IsPackageLevelType(named) {
 		return nil
 	}
 
@@ -334,7 +334,7 @@ func checkFieldIncDec(
 
 	typeName := named.Obj().Name()
 	pkg := named.Obj().Pkg()
-	if pkg == nil {
+	if pkg == nil || !util.IsPackageLevelType(named) {
 		return nil
 	}
 
@@ -460,7 +460,7 @@ func checkCompoundLHS(
 
 	typeName := named.Obj().Name()
 	pkg := named.Obj().Pkg()
-	if pkg == nil {
+	if pkg == nil || !util.IsPackageLevelType(named) {
 		return nil
 	}
 
